@@ -573,6 +573,26 @@ Definition k_tick (cfg : kcfg) (k : kstate) : outcome (kstate * list os_ev) :=
   | None => Ok (k, out)
   end.
 
+(* tick_ms(n) for a loop iteration that covers n milliseconds: n rounds of tick_states + replay (the delays of the replayed events
+   add up), then the catch-up rounds beyond n; k_tick is the case n = 1 (Proofs/C19Proofs: k_tick_ms_one) *)
+Fixpoint tick_ms_loop (cfg : kcfg) (n : nat) (k : kstate) (out : list os_ev) (extra : N) : outcome (kstate * list os_ev * N) :=
+  match n with
+  | O => Ok (k, out, extra)
+  | S m =>
+    '(k, o) <- tick_states cfg k ;;
+    let '(rp, ev) := tick_replay (k_replay k) (kc_dyn_replay_recorded cfg) in
+    let k := set_k_replay rp k in
+    match ev with
+    | Some (press, key, delay) =>
+      l <- lay_event cfg (k_layout k) press (0, key) ;;
+      tick_ms_loop cfg m (set_k_layout l k) (out ++ o) (sat_add16 extra delay)
+    | None => tick_ms_loop cfg m k (out ++ o) extra
+    end
+  end.
+Definition k_tick_ms (cfg : kcfg) (n : N) (k : kstate) : outcome (kstate * list os_ev) :=
+  '(k, out, extra) <- tick_ms_loop cfg (N.to_nat n) k [] 0 ;;
+  extra_ticks cfg (N.to_nat (sat_sub extra n)) k out.
+
 (* ------------------------------------------------------------------ idle predicates *)
 Definition k_is_idle (k : kstate) : bool :=
   let l := k_layout k in
